@@ -386,6 +386,27 @@ Proof.
     destruct (eval_s m e) as [vx|] eqn:Ea; [|discriminate Hl]. eapply eval_s_some_present; [exact Ea | exact Hm].
 Qed.
 
+Lemma excluded_sound c e v :
+  CH c = true -> mem_bytes v (excluded c e) = true ->
+  exists w, eval_s m e = Some w /\ bytes_eqb w v = false.
+Proof.
+  induction c as [|[a p] c IH]; [discriminate|].
+  intros Hc Hv. unfold cube_holds in Hc. cbn [forallb] in Hc. apply andb_true_iff in Hc as [Hl Hc].
+  fold (CH c) in Hc.
+  destruct a as [b|t|n x]; [|apply IH; assumption|apply IH; assumption].
+  destruct b as [| |x y|t|x|x y|x y|x vs|x k|n x| | | |]; try (apply IH; assumption).
+  destruct p; [apply IH; assumption|].
+  cbn [excluded] in Hv.
+  destruct (sexpr_eq_dec e x) as [->|]; [|apply IH; assumption].
+  apply mem_bytes_In in Hv. apply in_app_or in Hv as [Hv|Hv].
+  - unfold lit_holds in Hl. cbn [fst snd eval_atom eval_b] in Hl.
+    destruct (eval_s m x) as [w|]; [|discriminate Hl].
+    exists w. split; [reflexivity|]. cbn [option_map] in Hl.
+    destruct (bytes_eqb w v) eqn:E; [|reflexivity].
+    apply bytes_eqb_eq in E. subst w. apply mem_bytes_In in Hv. rewrite Hv in Hl. discriminate Hl.
+  - apply IH; [assumption|]. apply mem_bytes_In. exact Hv.
+Qed.
+
 Lemma entails_sound c l : entails c l = true -> CH c = true -> LH l = true.
 Proof.
   unfold entails. intros H Hc. apply orb_true_iff in H as [H|H].
@@ -400,10 +421,20 @@ Proof.
       pose proof (mentions_present a' t p' Hm Hl) as Hp.
       unfold lit_holds. simpl. destruct (get_tag m t); [reflexivity|discriminate Hp].
     + (* BIn *)
-      destruct (possible c a) as [ps|] eqn:Hp; [|discriminate H].
-      destruct (possible_sound c a ps Hp Hc) as [v [Ev Hv]].
-      rewrite forallb_forall in H. apply mem_bytes_In in Hv. specialize (H v Hv).
-      unfold lit_holds. simpl. rewrite Ev. simpl. exact H.
+      destruct (possible c a) as [ps|] eqn:Hp.
+      * destruct (possible_sound c a ps Hp Hc) as [v [Ev Hv]].
+        rewrite forallb_forall in H. apply mem_bytes_In in Hv. specialize (H v Hv).
+        unfold lit_holds. simpl. rewrite Ev. simpl. exact H.
+      * apply andb_true_iff in H as [H Hall]. apply andb_true_iff in H as [Hpol Hne].
+        destruct p; [discriminate Hpol|].
+        destruct vs as [|v0 vs']; [discriminate Hne|].
+        rewrite forallb_forall in Hall.
+        destruct (excluded_sound c a v0 Hc (Hall v0 (or_introl eq_refl))) as [w [Ew _]].
+        unfold lit_holds. cbn [fst snd eval_atom eval_b]. rewrite Ew. cbn [option_map].
+        destruct (mem_bytes w (v0 :: vs')) eqn:Em; [|reflexivity].
+        exfalso. apply mem_bytes_In in Em.
+        destruct (excluded_sound c a w Hc (Hall w Em)) as [w' [Ew' Hneq]].
+        rewrite Ew in Ew'. inversion Ew'; subst w'. rewrite bytes_eqb_refl in Hneq. discriminate Hneq.
 Qed.
 
 Lemma neg_lit_false l : LH (neg_lit l) = true -> LH l = false.
@@ -419,6 +450,12 @@ Proof.
   pose proof (entails_sound c (neg_lit l) He Hc) as Hn. apply neg_lit_false in Hn.
   unfold cube_holds. destruct (forallb LH x) eqn:E; [|reflexivity].
   rewrite forallb_forall in E. rewrite (E l Hin) in Hn. discriminate Hn.
+Qed.
+
+Lemma unsat_sound c : unsat c = true -> CH c = false.
+Proof.
+  intros H. destruct (CH c) eqn:Hc; [|reflexivity].
+  rewrite (refutes_sound c c H Hc) in Hc. discriminate Hc.
 Qed.
 
 Lemma forces_sound c e : forces c e = true -> CH c = true -> EH e = true.
